@@ -1275,6 +1275,39 @@ class ExprMixin(object):
         if k == 'none':
             yield self.raise_(st, TypeError, "'NoneType' object is not subscriptable")
             return
+        if k == 'any':
+            # a dynamically typed value: decided by what it holds - a string, a structure-table record, a tuple / list of
+            # dynamically typed items; anything else is not subscriptable here (None, numbers: TypeError; other objects:
+            # out of reach)
+            t = base.term
+            a = Val.addr(t)
+            cls = self.H(st, 'cls')
+            cases = [('str', Val.is_VStr(t))]
+            recs = [n for n in getattr(self.world, 'tuple_records', {}) if n in self.world.class_ids]
+            for n in recs:
+                cases.append(('rec:' + n, z3.And(Val.is_VRef(t), a > 0, cls[a] == self.world.cid(n))))
+            for n in ('tuple', 'list'):
+                cases.append((n, z3.And(Val.is_VRef(t), a > 0, cls[a] == self.world.cid(n))))
+            cases.append(('scalar', z3.Or(t == VNONE, Val.is_VInt(t), Val.is_VBool(t))))
+            rest = z3.Not(z3.Or(*[c for _, c in cases]))
+            for tag, cnd in cases:
+                stc = st.assume(cnd)
+                if not self.feasible(stc):
+                    continue
+                if tag == 'str':
+                    inner = SV(Val.sval(t), STR)
+                elif tag.startswith('rec:'):
+                    inner = SV(a, ObjT(tag[4:]))
+                elif tag in ('tuple', 'list'):
+                    inner = SV(a, TupleVar(ANY) if tag == 'tuple' else ListT(ANY))
+                else:
+                    yield self.raise_(stc, TypeError, 'object is not subscriptable')
+                    continue
+                for r in self.getitem(stc, inner, idx, fr):
+                    yield r
+            if self.feasible(st.assume(rest)):
+                raise OutOfReach('subscript on a dynamically typed value that may be an object of another class')
+            return
         raise OutOfReach('subscript on %r' % (base,))
 
     def record_len(self, st, base):
